@@ -38,6 +38,8 @@ def observe_text(text: str, info) -> dict:
 def _rgb(doc, idx):
     if idx is None:
         return None
+    if idx == 0 and not doc.colors:
+        return "default"            # index 0 is the default colour, with or without a colour table
     try:
         return doc.colors[idx] if 0 <= idx < len(doc.colors) else ("no such entry", idx)
     except TypeError:
@@ -217,3 +219,94 @@ def replay_cross(fam, case) -> int:
         return 1
     print("the difference lies outside what the property speaks about; property holds on this input")
     return 0
+
+
+# ----------------------------------------------------------------------------- light families (C08, C12, C13)
+
+class Light:
+    """a property whose own check is not built on the layout family: what it compares between the real text and the
+    encoder model's text (`extra`) and, where a clause of the statement can be decided on any document, that clause
+    (`clauses`, evaluated on both texts — only a clause failing on the real text alone is a failing input)"""
+
+    cross = True
+
+    def __init__(self, prop, extra, clauses=None):
+        self.prop, self.tag = prop, prop.lower()
+        self._extra, self._clauses = extra, clauses
+
+    def cross_prepare(self, spec, info):
+        return info
+
+    def project(self, pages, info):
+        return None
+
+    def cross_extra(self, spec, info, ob):
+        return self._extra(spec, info, ob)
+
+    def oracle(self, spec, info, ob):
+        return self._clauses(spec, info, ob) if self._clauses else []
+
+
+def _c08_extra(spec, info, ob):
+    """the cell boundaries of every table row, by page and role"""
+    return [[pno, b[:2], [d.cellx for d in r.defs]] for pno, b, r in table_rows(ob)]
+
+
+def _c08_clauses(spec, info, ob):
+    """every rendered row ends at the same right boundary (sections of one document share the table width)"""
+    ends = [(pno, b[:2], r.defs[-1].cellx) for pno, b, r in table_rows(ob) if r.defs]
+    if not ends:
+        return []
+    want = max(set(e[2] for e in ends), key=[e[2] for e in ends].count)
+    return [f"page {pno}: row {b} ends at {x} twips, the other rows of the document at {want}"
+            for pno, b, x in ends if x != want][:3]
+
+
+def _c12_extra(spec, info, ob):
+    """every colour and font reference of every table row and paragraph, resolved through the document's own tables"""
+    doc = ob["_doc"]
+    out = []
+    for pno, (blocks, raws) in enumerate(zip(ob["pages"], ob["_raw"]), 1):
+        for b, r in zip(blocks, raws):
+            if r is None:
+                continue
+            if getattr(r, "kind", None) == "row":
+                f = row_format(doc, r)
+                out.append([pno, b[:2], [{k: v for k, v in (d["borders"] or {}).items()} for d in f["defs"]],
+                            [[{k: v for k, v in run.items() if k in ("cf", "cb", "chcbpat", "f")} for run in c["runs"]]
+                             for c in f["cells"]]])
+            elif hasattr(r, "runs"):
+                out.append([pno, b[:1], [{k: v for k, v in _resolve(doc, run.props).items()
+                                          if k in ("cf", "cb", "chcbpat", "f")} for run in r.runs if run.text]])
+    return [out, sorted(doc.fonts) if isinstance(doc.fonts, dict) else None]
+
+
+def _c12_clauses(spec, info, ob):
+    """every colour index used refers to an existing entry of the document's own colour table"""
+    bad = []
+
+    def walk(x, where):
+        if isinstance(x, (list, tuple)):
+            if len(x) == 2 and x[0] == "no such entry":
+                bad.append(f"{where}: colour index {x[1]} has no entry in the document's colour table")
+                return
+            for y in x:
+                walk(y, where)
+        elif isinstance(x, dict):
+            for y in x.values():
+                walk(y, where)
+    for item in _c12_extra(spec, info, ob)[0]:
+        walk(item[2:], f"page {item[0]} {item[1]}")
+    return bad[:3]
+
+
+def _c13_extra(spec, info, ob):
+    """the text of every data cell (a group_by blank is an empty cell), by page and row"""
+    return [[pno, b[:2], [rtfread.para_text(c) for c in r.cells]] for pno, b, r in table_rows(ob) if b[0] == "data"]
+
+
+LIGHT = {
+    "C08": Light("C08", _c08_extra, _c08_clauses),
+    "C12": Light("C12", _c12_extra, _c12_clauses),
+    "C13": Light("C13", _c13_extra),
+}
